@@ -278,21 +278,43 @@ func (lib *SpecLib) Render(usedFns map[string]bool) string {
 	}
 	// axioms: include when every spec symbol they mention is needed (so they add no new symbols),
 	// iterate to fixed point for sort declarations
-	for _, f := range lib.forms {
-		if f.kind != "assert" {
-			continue
-		}
-		all, any := true, false
+	// axioms: an axiom is emitted as soon as one of the declared (uninterpreted) symbols it
+	// constrains is needed; the other symbols it mentions are then declared too (fixed point)
+	markDeps := func(f *SpecForm) {
+		var work []string
 		for s := range f.syms {
-			if g := lib.byName[s]; g != nil {
-				any = true
-				if !need[g.idx] {
-					all = false
-				}
+			work = append(work, s)
+		}
+		for len(work) > 0 {
+			n := work[len(work)-1]
+			work = work[:len(work)-1]
+			g := lib.byName[n]
+			if g == nil || need[g.idx] {
+				continue
+			}
+			need[g.idx] = true
+			for s := range g.syms {
+				work = append(work, s)
 			}
 		}
-		if any && all {
-			need[f.idx] = true
+	}
+	for changed := true; changed; {
+		changed = false
+		for _, f := range lib.forms {
+			if f.kind != "assert" || need[f.idx] {
+				continue
+			}
+			hit := false
+			for s := range f.syms {
+				if g := lib.byName[s]; g != nil && need[g.idx] && (g.kind == "declare-fun" || g.kind == "declare-const") {
+					hit = true
+				}
+			}
+			if hit {
+				need[f.idx] = true
+				markDeps(f)
+				changed = true
+			}
 		}
 	}
 	var sb strings.Builder
